@@ -127,5 +127,54 @@ theorem getItem_ofList_nat (l : List V) (k : Nat) :
   simp [getNat_ofList]
   
 
+@[simp] theorem extend_ofList (l m : List V) : extend (ofList l) (ofList m) = .ok (ofList (l ++ m)) := by
+  induction l with
+  | nil => simp [extend]
+  | cons x xs ih => simp [extend, ih]
+
+theorem replicateV_eq (a : V) (n : Nat) : replicateV a n = ofList (List.replicate n a) := by
+  induction n with
+  | zero => rfl
+  | succ k ih => simp [replicateV, ih, List.replicate_succ]
+
+theorem mul_single_int (a : V) (n : Int) :
+    mul (.cons a .nil) (.int n) = .ok (ofList (List.replicate n.toNat a)) := by
+  simp [mul, replicateV_eq]
+
+theorem dropNat_ofList (l : List V) (k : Nat) : dropNat (ofList l) k = ofList (l.drop k) := by
+  induction l generalizing k with
+  | nil => cases k <;> rfl
+  | cons x xs ih => cases k with
+    | zero => rfl
+    | succ k => simp [dropNat, ih]
+
+theorem dropFrom_ofList (l : List V) (k : Nat) :
+    dropFrom (ofList l) (.int (k : Int)) = .ok (ofList (l.drop k)) := by
+  unfold dropFrom
+  simp [dropNat_ofList]
+
+theorem contains_ofList (l : List V) (v : V) : contains (ofList l) v = .ok (l.any (fun a => pyEq a v)) := by
+  induction l with
+  | nil => rfl
+  | cons x xs ih =>
+    simp only [ofList_cons, contains, List.any_cons]
+    by_cases h : pyEq x v = true
+    · simp [h]
+    · simp [h, ih]
+
+/-- `enumerate` of a list, as a list of pairs, counting from `i` -/
+def enumL : List V → Int → List V
+  | [], _ => []
+  | x :: xs, i => V.tup2 (.int i) x :: enumL xs (i + 1)
+
+theorem enumAux_ofList (l : List V) (i : Int) : enumAux (ofList l) i = .ok (ofList (enumL l i)) := by
+  induction l generalizing i with
+  | nil => rfl
+  | cons x xs ih => simp [enumAux, ih, enumL]
+
+theorem enumerate_ofList (l : List V) : enumerate (ofList l) = .ok (ofList (enumL l 0)) := by
+  simp [enumerate, enumAux_ofList]
+
+
 end V
 end Nb.Py
